@@ -423,3 +423,47 @@ def evaluate_cases(ctx, cases, stream, theorem, nontrivial, what_key=None, on_bu
 def shrink_edges(factory, edges, queries_for, fails):
     """not used yet: greedy edge removal keeping the failure"""
     return edges
+
+
+def factory_after_failure(ctx, rng, theorem):
+    """a long-lived factory of each class is first given lists it rejects half-way (self-loop, two-cycle, junk node) that share terms and
+    edges with the list that follows: the graph of that valid list must answer like the graph of a fresh factory"""
+    _, TermId, _, F = _hp()
+    for k in range(4):
+        ids = [f'HP:{i:07d}' for i in rng.sample(range(1, 400), 7)]
+        valid = [(ids[1], ids[0]), (ids[2], ids[0]), (ids[3], ids[1]), (ids[3], ids[2]), (ids[4], ids[3]), (ids[5], ids[1])]
+        rng.shuffle(valid)
+        bads = [valid[:3] + [(ids[4], ids[4])] + valid[3:], valid[:2] + [(ids[0], ids[1])], valid + [(ids[6], ids[6])],
+                valid + [(ids[0], ids[5])],                      # the root gets a parent below itself: no parentless term is left
+                valid[:4] + [(ids[0], ids[4])] + valid[4:]]
+        for f in FACTORIES:
+            ctx.case(['factory-after-failure', f, valid], True, 'factory reused after a failed build')
+            problem = None
+            try:
+                fresh = build_impl(f, valid)
+                # every rejected list on its own (a later SUCCESSFUL build could wipe what the failed one left behind), and all in a row
+                for history in [[b] for b in bads] + [bads]:
+                    with warnings.catch_warnings():
+                        warnings.simplefilter('ignore')
+                        fac = F[f]()
+                        for bad in history:
+                            try:
+                                fac.create_graph([(TermId.from_curie(a), TermId.from_curie(b)) for a, b in bad])
+                            except Exception:  # noqa
+                                pass
+                        g = fac.create_graph([(TermId.from_curie(a), TermId.from_curie(b)) for a, b in valid])
+                    if [t.value for t in g] != [t.value for t in fresh] or g.root != fresh.root:
+                        problem = f'nodes / root differ from a fresh factory: {[t.value for t in g]} root {g.root.value}'
+                    for v in fresh:
+                        for q in QS:
+                            a, b = vals(getattr(g, 'get_' + q)(v)), vals(getattr(fresh, 'get_' + q)(v))
+                            if a != b and problem is None:
+                                problem = f'get_{q}({v.value}) = {a}, a fresh factory gives {b}'
+                    if problem:
+                        bads = history
+                        break
+            except Exception as e:  # noqa
+                problem = f'raises {type(e).__name__}: {e}'
+            if problem:
+                ctx.violation(f'{f}:factory-after-failure', {'case': {'kind': 'factory-after-failure', 'factory': f, 'edges': valid, 'rejected_before': bads},
+                                                             'impl': problem, 'theorem': theorem})
